@@ -7,23 +7,23 @@ PY = "/venv/bin/python"
 # id: (technique, level text, level note, design_ref)
 CHECKS = {
  "C07": ("bounded exhaustive exploration of the real reader over all byte strings / token sequences up to a length bound x reader configurations; invariant oracle on every execution",
-         "No execution of UBXReader.read() over any byte string of the stated alphabet and length bound, under any of the enumerated reader configurations, returns a raw item that is not an ordered, non-overlapping, preamble-led slice of the input or reports end-of-stream with unread data. Exhaustive within the bound, not a proof beyond it.",
+         "No execution of UBXReader.read() over any byte string of the stated alphabet and length bound or token sequence, under any of the enumerated reader configurations - and under every single short read of the stream (one deviation) - returns a raw item that is not an ordered, non-overlapping, preamble-led slice of the input or reports end-of-stream with unread data. Exhaustive within the bound, not a proof beyond it.",
          "io.BytesIO as the stream; pynmeagps.NMEA_HDR as the list of NMEA preambles; strings longer than the bound and bytes outside the 8-symbol alphabet are reached only through token sequences.",
          "DESIGN.md §5 C07"),
  "C06": ("bounded exhaustive exploration of the real reader over all token sequences (frames of three protocols, accepted/rejected, noise) up to a depth x configurations; expected output known by construction",
-         "For every sequence of up to the stated number of frame/noise tokens and every enumerated configuration, the reader yields exactly the frames their protocol parser accepts, in order, with the parser's result, then ends with the stream consumed.",
+         "For every sequence of up to the stated number of frame/noise tokens (incl. frames at the length boundaries of each protocol's framing, rejected frames that contain foreign frames, NMEA input the parser answers with None) and every enumerated configuration, ITERATING the reader yields exactly the frames their protocol parser accepts, in order, with the parser's result, then ends with the stream consumed.",
          "pynmeagps/pyrtcm parsers decide acceptance of NMEA/RTCM tokens; token alphabet is fixed (14 frames, 5 noise); depth bound.",
          "DESIGN.md §5 C06"),
  "C09": ("crash-point enumeration: every cut position of every byte string / token sequence up to a bound, executed on the real reader; prefix oracle against the uncut run",
-         "No cut of any enumerated stream yields an item sequence that is not a prefix of the uncut output, raises, leaves bytes unread, or (for clean sequences) loses a frame that ends before the cut.",
+         "No cut of any enumerated stream - read from BytesIO, from a pipe-like non-seekable stream or from a minimal read/readline object - yields an item sequence that is not a prefix of the uncut output, raises, leaves bytes unread, or (for clean sequences) loses a frame that ends before the cut.",
          "BytesIO(S[:k]) models the cut stream; items compared by type/str/serialize.",
          "DESIGN.md §5 C09"),
  "C11": ("bounded exhaustive exploration over byte strings / token sequences x all 8 masks x parsing on/off; differential oracle against mask 7",
-         "For every enumerated stream and base configuration, each mask's output equals the unfiltered output restricted to the mask's protocols; parsing=False leaves framing unchanged on accepted-frame sequences and returns no parsed values.",
+         "For every enumerated stream and base configuration, each mask's output (8 readers constructed together and iterated round-robin) equals the unfiltered output restricted to the mask's protocols; parsing=False leaves framing unchanged on accepted-frame sequences and returns no parsed values.",
          "reference classifier of the first two bytes decides an item's protocol.",
          "DESIGN.md §5 C11"),
  "C12": ("bounded exhaustive exploration over token sequences and byte strings x quitonerror(3) x handler present/absent; by-construction handler-event oracle plus differential oracle between policies",
-         "For every enumerated stream: IGNORE and LOG deliver identical items; under LOG the handler (or the logger, if absent) is called exactly once per rejected frame token, in order, with the parser's exception; under RAISE the items before the first error event are delivered and that same exception is raised.",
+         "For every enumerated stream, and under every single short read of it: IGNORE and LOG deliver identical items; under LOG the handler (or the logger, if absent) is called exactly once per rejected frame token, in order, with the parser's exception, never for a delivered one; under RAISE the items before the first error event are delivered and that same exception is raised.",
          "exception identity compared by class name and message; log records captured at the root logger.",
          "DESIGN.md §5 C12"),
  "C10": ("schedule enumeration of the environment: state-merged DFS over every recv() answer (chunk size) on the real SocketWrapper+UBXReader x bufsize x end condition; differential oracle against the file-stream run plus read/readline contracts",
@@ -74,7 +74,7 @@ CHECKS = {
          "Every message built in the enumerated spaces serializes to b5 62 + class + ID + LE length equal to the actual payload length + payload + reference Fletcher checksum, is accepted by parse in the same mode with identical re-serialization, and the three addressing forms give identical frames.",
          "independent framing in mc/refmodel/core.py; attribute values limited to boundary values; payload contents to fill patterns.",
          "DESIGN.md §5 C04"),
- "C13": ("three explorations on the real code: exhaustive set/delete of every attribute name of a message per definition; explicit-state search over an operation alphabet with a deep digest of all module state (every event must be a self-loop) plus all histories of length 2(3) against a probe set with fd-level output capture; iterative preemption-bounded enumeration of thread schedules (sys.settrace line-level cooperative scheduler) for colliding operation pairs/triples",
+ "C13": ("three explorations on the real code: exhaustive set/delete of every attribute name of a message per definition; explicit-state search over an operation alphabet of ~1,500 events where every history is built from the pristine import state in a forked child (deep digest of the definition/config tables, fd-level output capture, each event's result vs the event alone; all adjacent pairs of events sharing a class/ID; length-2/3 histories with a probe set); iterative preemption-bounded enumeration of thread schedules (sys.settrace line-level cooperative scheduler) for colliding operation pairs/triples",
          "No attribute of any enumerated message can be set or deleted (UBXMessageError, message unchanged); no event of the alphabet changes the digest of pyubx2's module state or writes to fd 1/2, and no history of the explored depth changes a probe result; for every explored pair/triple of colliding operations every schedule with at most the stated number of line-level preemptions gives each thread its sequential result.",
          "digest covers data reachable from pyubx2 module globals (not pynmeagps/pyrtcm); preemptions only at source-line boundaries inside pyubx2; bound 1 in quick, 2 (capped) in thorough.",
          "DESIGN.md §5 C13"),
